@@ -158,3 +158,33 @@ pub fn string_candidates(s: &str) -> Vec<(String, usize, usize)> {
     }
     out
 }
+
+
+/// Text of a panic payload.
+pub fn panic_text(p: &Box<dyn std::any::Any + Send>) -> String {
+    if let Some(s) = p.downcast_ref::<&str>() {
+        s.to_string()
+    } else if let Some(s) = p.downcast_ref::<String>() {
+        s.clone()
+    } else {
+        "panic".to_string()
+    }
+}
+
+/// Run the two sides of a differential comparison.  A panic on BOTH sides is some other
+/// property's business (totality) and is passed on; a panic on exactly ONE side is a difference
+/// in outcome between the two sides, i.e. a violation of the differential property itself.
+pub fn run_pair<T>(what_a: &str, what_b: &str, fa: impl FnOnce() -> T, fb: impl FnOnce() -> T) -> Result<(T, T), Violation> {
+    let ra = std::panic::catch_unwind(std::panic::AssertUnwindSafe(fa));
+    let rb = std::panic::catch_unwind(std::panic::AssertUnwindSafe(fb));
+    match (ra, rb) {
+        (Ok(a), Ok(b)) => Ok((a, b)),
+        (Err(p), Err(_)) => std::panic::resume_unwind(p),
+        (Ok(_), Err(p)) => Err(Violation::new("outcome-differs-panic", format!("{what_b} panics ({}) while {what_a} completes", truncate(&panic_text(&p), 300)))),
+        (Err(p), Ok(_)) => Err(Violation::new("outcome-differs-panic", format!("{what_a} panics ({}) while {what_b} completes", truncate(&panic_text(&p), 300)))),
+    }
+}
+
+fn truncate(s: &str, n: usize) -> String {
+    s.chars().take(n).collect()
+}
